@@ -299,7 +299,9 @@ EXTRA_NOTES = {
            "denoting the current backing word (RISC-V and TOY; the TOY pc row shows the address of the NEXT fetch).",
     "C19": " Props/C19Lex.v + Model/ToyLex.v: the TOY tokenizer is inside the model (domain: every Python string) — layout, comments, mnemonic case and number "
            "bases do not change the token lines (proved), and load_program(text) is compared with the model's lexer+assembler on the same text (requests 90/91).",
-    "C15": " For TOY the typed outcome is compared on ARBITRARY text with the model's own lexer + assembler (Model/ToyLex.v), not only on texts the real tokenizer accepts.",
+    "C15": " Props/C15ToyText.v: for EVERY text the model's TOY lexer + assembler either succeeds or yields one of five line-carrying parser errors or the size error "
+           "(the 'uncaught' constructor is proved impossible), the reported line number lies in 1..number of lines and names the offending line, and a failed load "
+           "leaves the fresh state. For TOY the typed outcome is compared on ARBITRARY text with the model's own lexer + assembler (Model/ToyLex.v), not only on texts the real tokenizer accepts.",
 }
 for _k, _v in EXTRA_NOTES.items():
     CLAIMED[_k]["note"] = CLAIMED[_k]["note"] + _v
